@@ -1,0 +1,14 @@
+//! Verification hook: dumps macro expansions
+use std::io::Write;
+use std::sync::atomic::{AtomicUsize, Ordering};
+static COUNTER: AtomicUsize = AtomicUsize::new(0);
+pub(crate) fn dump(kind: &str, name: &str, expansion: &str) {
+    let Ok(dir) = std::env::var("BITBYBIT_VERIF_DUMP_DIR") else { return; };
+    let n = COUNTER.fetch_add(1, Ordering::SeqCst);
+    let path = std::path::Path::new(&dir).join(format!("{:05}_{}_{}.rs", n, kind, name));
+    if let Ok(mut f) = std::fs::File::create(path) {
+        let _ = f.write_all(expansion.as_bytes());
+    }
+}
+
+pub(crate) fn dump_ts(kind: &str, name: &str, expansion: &str) -> bool { dump(kind, name, expansion); false }
